@@ -213,6 +213,54 @@ func init() {
 
 // mixGen draws runs from several stream generators (tap-invariant properties
 // are evaluated on the same kind of runs as C01-C03).
+// c14SizeSweep rewrites the scripts of a UDP run into series of writes whose data segment
+// leaves a chosen amount of room in the datagram (0, 1, around one and around two maximal
+// paddings, anything up to 520 bytes), with the padding maxima at their defaults or at 255.
+func c14SizeSweep(s *spec.RunSpec, r *simnet.Rng) {
+	s.Profile += "+size-sweep"
+	if r.Bool(0.5) {
+		s.Server.Pattern = nil
+	} else if s.Server.Pattern != nil {
+		s.Server.Pattern.PadMid, s.Server.Pattern.PadEnd, s.Server.Pattern.LEMode = pI32(255), pI32(255), pI32(0)
+	}
+	mk := func(mtu int) []int {
+		if mtu == 0 {
+			mtu = 1400
+		}
+		var out []int
+		for i, n := 0, 10+r.Intn(25); i < n; i++ {
+			room := r.Pick(0, 1, 254, 255, 255, 256, 260, 270, 300, 400, 509, 510, 511, r.Intn(520))
+			size := mtu - 88 - room
+			if r.Bool(0.2) {
+				size += 32768 // a full fragment first, then the tail
+			}
+			if size < 1 {
+				size = 1
+			}
+			out = append(out, size)
+		}
+		return out
+	}
+	for ci := range s.Clients {
+		c := &s.Clients[ci]
+		if r.Bool(0.5) {
+			c.Pattern = nil
+		} else if c.Pattern != nil {
+			c.Pattern.PadMid, c.Pattern.PadEnd, c.Pattern.LEMode = pI32(255), pI32(255), pI32(0)
+		}
+		for si := range c.Sessions {
+			se := &c.Sessions[si]
+			se.C2S.Writes, se.S2C.Writes = mk(c.MTU), mk(s.Server.MTU)
+			se.C2S.GapsUs, se.S2C.GapsUs = []int64{int64(r.Pick(100, 1000, 5000))}, []int64{int64(r.Pick(100, 1000, 5000))}
+			se.C2S.ReadBufs, se.S2C.ReadBufs = []int{65536}, []int{65536}
+		}
+	}
+	if s.Liveness != nil {
+		total := int64(sumAll(s))
+		s.Liveness.BoundUs += 10 * (total/1100/16 + 1) * 2 * s.Net.LatencyUs
+	}
+}
+
 func mixGen(id string, salt uint64, parts ...string) func(master uint64, idx int, tier string) *spec.RunSpec {
 	return func(master uint64, idx int, tier string) *spec.RunSpec {
 		src := parts[idx%len(parts)]
@@ -229,7 +277,13 @@ func init() {
 		rule:        "UDP runs from the C02/C03 generators with MTU 1280-1500 drawn independently per side, padding maxima 0..255, low-entropy off/32/40/48/56, write sizes 1 B to several fragments, first-write piggyback 0..1024, and fault profiles that force retransmissions, acks and control segments. On every emitted datagram: len <= sender's configured MTU; on every decoded segment (both transports): session payload <= 1024, fragment <= 32768, low-entropy length law.",
 		assumptions: []string{"the configured MTU of a sender is the mtu field of its own configuration", "the reference codec is the trusted base"},
 		components:  realComponents,
-		gen:         mixGen("C14", 0x14, "C02", "C02", "C03", "C01"),
+		gen: func(master uint64, idx int, tier string) *spec.RunSpec {
+			s := mixGen("C14", 0x14, "C02", "C02", "C03", "C01")(master, idx, tier)
+			if r := simnet.NewRng(s.Seed, "c14-sizes"); s.Clients[0].Transport == "udp" && r.Bool(0.5) {
+				c14SizeSweep(s, r)
+			}
+			return s
+		},
 	})
 	register(&propDef{
 		id: "C16", level: "exploration", quickRuns: 192, thoroughRuns: 4000, wallPerRun: 5 * time.Minute,
